@@ -70,6 +70,10 @@ func (noVerify) Verify() {}
 
 var registry = []*Workload{
 	{
+		Name: "synthetic-redistribute", Outputs: []string{"out"}, Integer: true,
+		New: func(d *driver.Driver, a arch.Type, p map[string]int) benchmarks.Benchmark { return newReupload(d, p) },
+	},
+	{
 		Name: "xor", Outputs: nil, Tol: 1e-2,
 		New: func(d *driver.Driver, a arch.Type, p map[string]int) benchmarks.Benchmark { return noVerify{xor.NewBenchmark(d)} },
 		Cost: func(p map[string]int) float64 { return 10 },
